@@ -21,25 +21,30 @@ FIELDS = ["cls", "nodes", "F-registry", "S-registry", "unregistered-aug-nodes", 
 OPN = {"new": 0, "copy": 1, "addf": 2, "addfs": 3, "adds": 4, "rm": 5, "rmfrom": 6, "node": 7, "edge": 8}
 
 RULE = ("histories over 1-3 live objects (AugmentedGraph and AugmentedPAG, also mixed), ordinary nodes 0..2 (+3 via add_node): "
-        "ALL histories of length <=3 (quick) / <=4 (thorough, one start class per length-4 stream) over the reduced alphabet "
+        "ALL histories of length <=3 (quick) / <=4 (thorough; at length 4 at most 2 live objects) over the reduced alphabet "
         "{new, copy o, add_f_node o {0}|{1}|{0,1}, add_f_nodes_from o [{2},{0}], add_s_node o (1,2){0}|(2,3){1}, "
         "remove_node o F#0|F#1|S#0, remove_nodes_from o [F#0]|[S#0], add_node o 3, add_edge o 0->1} after a `new`; then seeded random "
         "histories of length 20 (quick) / 120 (thorough) biased to remove-then-add, copy-then-mutate, second-object; plus the "
         "Refuted.v witnesses. After every op every live object is observed. distinct by op list; non-trivial = at least one "
         "augmented node was created and the history contains a removal, a copy or a second object")
 EXHAUSTIVE = {"quick": "all histories of length <=3 over the reduced alphabet (both classes)",
-              "thorough": "all histories of length <=4 over the reduced alphabet (both classes)"}
+              "thorough": "all histories of length <=4 over the reduced alphabet (both classes; length 4 with at most 2 live objects)"}
 TRUSTED = ["networkx node / adjacency dict semantics and MixedEdgeGraph layer bookkeeping taken at face value",
            "registry insertion order (dict order) is used to refer to augmented nodes by position"]
 ASSUMPTIONS = ["ordinary nodes are not named like augmented nodes (('F', i) / ('S', i))",
                "only directed edges among ordinary nodes, never reversed (u < v), so no PAG/ADMG edge guard fires",
                "set_f_node re-targeting and removal of target nodes are outside the claim (property text) and never generated",
                "add_f_node with the default domain and require_unique=True"]
-LEVEL_TEXT = ("Coq proof, unbounded over histories (induction over the op list) for the machine the property demands "
-              "(deep-copied registries, per-instance domains, index fresh w.r.t. the nodes present, removals unregister): "
-              "registry_inv, fresh_names, objects_independent, copy_faithful. The machine as coded is REFUTED clause by clause "
-              "(Refuted.v, vm_compute witnesses of length 3-4, each replayed on the real classes by this harness). "
-              "The link model <-> /repo is by correspondence on exhaustive short and random long histories.")
+LEVEL_TEXT = ("Coq proof, all clauses UNBOUNDED over histories (induction over the op list through a world invariant: per-object "
+              "registry invariant + registries of distinct live objects are distinct heap cells) for the machine the property "
+              "demands (deep-copied registries on copy, per-instance domains, index fresh w.r.t. the nodes present, remove_node and "
+              "remove_nodes_from unregister F- and S-nodes): registry_inv, created_stable, fresh_names, fresh_names_s, "
+              "objects_independent, copy_faithful, registries_not_aliased. Nothing is bounded. The machine AS CODED is refuted "
+              "clause by clause (Refuted.v: kernel-evaluated witnesses of length 3-5; each_repair_necessary: each of the five "
+              "deviations alone breaks a clause); the witnesses are replayed on the real classes by this harness, and the as-coded "
+              "machine was compared with the unpatched classes on the whole thorough stream (C20_ASIS=1: 0 disagreements). "
+              "That /repo behaves like the intended machine is established by correspondence only (exhaustive short + random "
+              "long histories, every live object observed after every op).")
 LEVEL_NOTE = ("heap model: only the aliasing the property is about (registry dicts, `domains`) is by reference; node/edge "
               "attribute dicts are by value. Augmented nodes compared up to renaming.")
 TECHNIQUE = "Coq proof (inductive invariant + refinement to a by-value abstract state, unbounded) + extracted-model correspondence"
@@ -73,15 +78,16 @@ def histories(length, cls, maxobj=3):
     yield from rec([["new", cls, [0, 1, 2]]], 1, length)
 
 
-WITNESSES = [  # the histories of Refuted.v (positions instead of names)
+WITNESSES = [  # Refuted.v: h_reuse+add, h_copy+add, h_two+add_s, h_snode, h_rmfrom (positions instead of names), then variants
     [["new", 0, [0, 1, 2]], ["addf", 0, [0]], ["addf", 0, [1]], ["rm", 0, 0, 0], ["addf", 0, [2]]],
     [["new", 0, [0, 1, 2]], ["addf", 0, [0]], ["copy", 0], ["addf", 1, [1]]],
-    [["new", 0, [0, 1, 2]], ["new", 0, [0, 1, 2]], ["adds", 0, 1, 2, [0]]],
+    [["new", 0, [0, 1, 2]], ["new", 1, [0, 1, 2]], ["adds", 0, 1, 2, [0]]],
     [["new", 0, [0, 1, 2]], ["adds", 0, 1, 2, [0]], ["rm", 0, 1, 0]],
     [["new", 0, [0, 1, 2]], ["addf", 0, [0]], ["rmfrom", 0, [[0, 0]]]],
     [["new", 1, [0, 1, 2]], ["addf", 0, [0]], ["addf", 0, [1]], ["rm", 0, 0, 0], ["addf", 0, [2]]],
     [["new", 1, [0, 1, 2]], ["adds", 0, 1, 2, [0]], ["copy", 0], ["rm", 1, 1, 0]],
-    [["new", 1, [0, 1, 2]], ["new", 0, [0, 1, 2]], ["adds", 0, 1, 2, [0]]],
+    [["new", 1, [0, 1, 2]], ["adds", 0, 1, 2, [0]], ["adds", 0, 2, 3, [1]], ["rm", 0, 1, 0], ["adds", 0, 3, 4, [2]]],
+    [["new", 1, [0, 1, 2]], ["addf", 0, [0]], ["rmfrom", 0, [[0, 0]]]],
 ]
 
 
@@ -211,7 +217,16 @@ def run_impl(case):
         d = c.__dict__.get("domains")
         if isinstance(d, set):
             d.clear()
-    lab, inv = gr.labeler(case)
+    lab0, _ = gr.labeler(case)
+    table = {}
+
+    def lab(v):
+        x = lab0(v)
+        table[x] = v
+        return x
+
+    def inv(x):      # KeyError for anything that is not an ordinary label (identity labels included)
+        return table[x]
     objs, trace = [], []
 
     def aug_count(G):
@@ -278,27 +293,36 @@ def _is_ord(inv, n):
 
 # ------------------------------------------------------------------ comparison
 def compare(case, impl, model):
+    """first differing step -> name of the observable class:
+       fresh-name                an add op succeeded without creating the expected number of new nodes
+       independence:domains      `domains` of an object that was not operated on (or of a newly constructed one) differs
+       independence:registries   any other observable of an object that was not operated on differs
+       copy-faithful:<field>     the new copy differs from what the original was
+       registry:<field>@<op>     the object operated on differs"""
     if isinstance(impl, dict):
         return "exception:" + impl.get("exc", "?")
     ops = case["ops"]
+    asis = case.get("mode", MODE)
     for i, (a, b) in enumerate(zip(impl, model)):
         name = ops[i][0]
-        if a[2]:
-            return "fresh-name@" + name
-        if a == b:
+        if a[2] and not asis:
+            return "fresh-name"
+        if a[:2] == b[:2]:
             continue
         if a[0] != b[0]:
             return "status@" + name
         if len(a[1]) != len(b[1]):
             return "objects@" + name
-        tgt = ops[i][1] if name not in ("new",) else None
+        tgt = None if name in ("new", "copy") else ops[i][1]
         for o, (x, y) in enumerate(zip(a[1], b[1])):
-            if x != y:
-                scope = "registry" if (o == tgt and name != "copy") or (name in ("new", "copy") and o == len(a[1]) - 1) else "independence"
-                for f, (p, q) in zip(FIELDS, zip(x, y)):
-                    if p != q:
-                        return "%s:%s@%s" % (scope, f, name)
-                return "%s:?@%s" % (scope, name)
+            if x == y:
+                continue
+            field = next((f for f, (p, q) in zip(FIELDS, zip(x, y)) if p != q), "?")
+            if o == tgt:
+                return "registry:%s@%s" % (field, name)
+            if name == "copy" and o == len(a[1]) - 1:
+                return "copy-faithful:" + field
+            return "independence:domains" if field == "domains" else "independence:registries"
     return None
 
 
